@@ -1131,7 +1131,7 @@ def run(ctx) -> Result:
         "floats are exact on this stream: dyadic bounds/values with power-of-two ranges",
     ]
     rng = ctx.rng
-    n_hist = 6000 if ctx.thorough else 400
+    n_hist = 6000 if ctx.thorough else 1000
     corpus = load_corpus()
     hs = [h for h, _ in corpus]
     styles = [s for _, s in corpus]
